@@ -111,6 +111,7 @@ def run(chk):
     ersae.run(chk)
     from lib import evexfeatures
     evexfeatures.run(chk)
+    evexfeatures.run_avx2(chk)
     return chk.finish(
         level="other",
         explanation=("Table/database agreement clauses: the RW, flag, feature and rm tables regenerate byte-identically from db/ with the "
